@@ -21,6 +21,9 @@ def relock():
             lines.append('%s %s\n' % (fn[:-5], C.sha(os.path.join(pd, fn))))
     open(C.LOCK, 'w').writelines(lines)
     print('props.lock rewritten (%d files)' % len(lines))
+    lit = C.pin_literals()
+    print('tools/src_literals.json rewritten (%d properties, %d literals)' % (
+        len(lit), sum(len(v) for d in lit.values() for v in d.values())))
 
 
 def on_alarm(signum, frame):
